@@ -613,6 +613,22 @@ func genConfig(r rng, seed uint64, id string, merge bool) *sdl.Program {
 		p.Types = append(p.Types, t)
 		p.Instances = append(p.Instances, &sdl.Instance{ID: fmt.Sprintf("c%d", ti), Type: t.Name, PresetCfg: r.p(0.25)})
 	}
+	// every component holds a configuration holder of one type that names its section per
+	// instance, the sections alternate
+	if !merge && r.p(0.1) && len(p.Types) >= 2 {
+		for ti, t := range p.Types {
+			var keep []*sdl.Conf
+			for _, cf := range t.Config {
+				if cf.Menu != "typePrefixDyn" {
+					keep = append(keep, cf)
+				}
+			}
+			t.Config = append(keep, &sdl.Conf{Field: "CD", Menu: "typePrefixDyn", Keys: []string{[]string{"sim.sub", "alt.sub"}[ti%2]}, GoType: "cfgpd"})
+		}
+		last := p.Sources[len(p.Sources)-1]
+		setPath(last.Doc, "sim.sub.a", r.n(1, 4))
+		setPath(last.Doc, "alt.sub.a", r.n(5, 9))
+	}
 	// several components bind one struct type whose constraints sit behind a pointer: in one
 	// section the pointer stays nil (nothing is supplied below it), in the other it is set
 	if !merge && r.p(0.12) && len(p.Types) >= 2 {
